@@ -46,10 +46,16 @@ def configs(tier, seed):
             out.append({"name": "dom-VROOM-d1", "mode": "dom", "algo": algo, "part": "B", "d": 1, "T": 1, "cost": 4})
         else:
             out.append({"name": "dom-%s-d2" % algo, "mode": "dom", "algo": algo, "part": "DB", "d": 2, "T": 2, "cost": 4})
+            if algo in ("T_HOO", "HCT", "SOO", "Zooming", "SequOOL", "POO"):
+                for part in ("B", "K3", "RB"):
+                    if algo == "Zooming" and part == "RB":
+                        continue
+                    out.append({"name": "dom-%s-%s-d2-reversed-range" % (algo, part), "mode": "dom", "algo": algo, "part": part, "d": 2, "T": 3, "reversed": True, "cost": 6})
     out.append({"name": "det-StroquOOL-B-n200-T18", "mode": "det", "algo": "StroquOOL", "part": "B", "d": 1, "T": 18, "params": {"n": 200}, "cost": 60})
     for algo, T in T_ISO.items():
         for part in ("B", "K3"):
             out.append({"name": "iso-%s-%s-x2-T%d" % (algo, part, T + q), "mode": "iso", "algo": algo, "other": algo, "part": part, "d": 1, "T": T + q, "cost": 20})
+        out.append({"name": "iso-%s-DB-shared-domain-T%d" % (algo, min(T + q, 2)), "mode": "iso", "algo": algo, "other": algo, "part": "DB", "d": 2, "T": min(T + q, 2), "shared_dom": True, "cost": 20})
         if algo != "T_HOO":
             out.append({"name": "iso-T_HOO-vs-%s-B-T%d" % (algo, T + q), "mode": "iso", "algo": "T_HOO", "other": algo, "part": "B", "d": 1, "T": min(T + q, 3), "cost": 20})
     for algo, T in T_DET.items():
@@ -155,6 +161,11 @@ def run(ctx, cfg):
     mode, T, d = cfg["mode"], cfg["T"], cfg["d"]
     dom = sym_box(ctx, d)
     snap = snapshot(dom)
+    if mode == "dom" and cfg.get("reversed"):
+        # the last range is written [high, low] (the repository's own tests do that): only non-mutation is claimed
+        lo, hi = dom[-1]
+        dom[-1][0], dom[-1][1] = hi, lo
+        snap = snapshot(dom)
     if mode == "dom":
         rewards = [ctx.real("r%d" % t) for t in range(1, T + 1)]
         shims.rng_fresh()
@@ -203,7 +214,10 @@ def run(ctx, cfg):
     # isolation
     shims.rng_fresh()
     rb = [ctx.real("s%d" % t) for t in range(1, T + 1)]
-    dom_b = sym_box(ctx, d)  # the second instance lives on its own box
+    if cfg.get("shared_dom"):
+        dom_b = dom  # both instances are built from the very same list object
+    else:
+        dom_b = sym_box(ctx, d)  # the second instance lives on its own box
     snap_b = snapshot(dom_b)
     solo_a = one_run(ctx, cfg, dom, rewards, T)
     solo_b = one_run(ctx, cfg, dom_b, rb, T, algo_name=cfg["other"])
